@@ -17,6 +17,12 @@ CLAIMED = {
     },
 }
 
+CLAIMED["C12"] = {
+    "text": "Seeded search over interleavings of start_of/end_of (9 units, DateTime and Date, values obtained by construction, conversion, parsing, timestamps, earlier ops and the simulated clock) with a nemesis that rewrites week_starts_at()/week_ends_at() mid-call and restarts caches; each result must be the answer under one configuration that was in force during the call (register linearizability against the cold re-execution) and must equal the first/last instant of the unit computed from the standard library's tz data.",
+    "ref": "DESIGN.md §5 C12",
+    "note": "trusts: stdlib zoneinfo/tzdata as reference; week registers written by a single nemesis actor; one open known finding class (boundary wall time skipped/repeated resolved by the carried fold) is suppressed by signature only",
+}
+
 NOT_APPLICABLE = {
     "C03": "pure function of its arguments and immutable zone data: no clock, shared mutable slot, configuration or I/O in add/subtract with fixed units; nothing for a scheduler or fault injector to vary",
     "C04": "pure function of its arguments (calendar arithmetic + construction rules); Duration fields it reads are written once in __new__; no schedule, clock or fault dependence",
@@ -36,9 +42,10 @@ ALL = ["C%02d" % i for i in range(1, 21)]
 
 # designed as simulation targets (DESIGN.md §5) but whose check is not registered yet
 PENDING = {p: "simulation target per DESIGN.md §5, check still under construction in this commit (not claimed yet)"
-           for p in ("C01", "C02", "C06", "C08", "C12", "C16", "C18")}
+           for p in ("C01", "C02", "C06", "C08", "C16", "C18")}
 
-FIX_COMMITS = ["0cac821 (C09 lazy-slot race)"]
+FIX_COMMITS = ["0cac821 (C09 lazy-slot race)", "c2f908d (previous() never terminates across a skipped calendar day; C12/C16)",
+               "2c83944 (next() drifts to 01:00 after a skipped midnight; C16)", "6249586 (C12 week configuration read twice)"]
 
 
 def main():
